@@ -98,6 +98,7 @@ type iJob[T any] interface {
 	Job[T]
 	StatusProvider
 	changeStatus(s status)
+	startProcessing() bool
 	setAckId(id string)
 	setInternalQueue(q IBaseQueue)
 	ack() error
@@ -176,6 +177,41 @@ func (j *job[T]) changeStatus(s status) {
 	j.status.Store(s)
 }
 
+// startProcessing moves the job to processing unless it has been closed.
+// It reports false for a closed job, which must not be executed.
+func (j *job[T]) startProcessing() bool {
+	for {
+		s := j.status.Load()
+
+		if s == closed {
+			return false
+		}
+
+		if j.status.CompareAndSwap(s, processing) {
+			return true
+		}
+	}
+}
+
+// markClosed moves the job to closed unless it is processing or already closed.
+// Of any number of concurrent callers exactly one gets nil.
+func (j *job[T]) markClosed() error {
+	for {
+		s := j.status.Load()
+
+		switch s {
+		case processing:
+			return ErrJobProcessing
+		case closed:
+			return ErrJobAlreadyClosed
+		}
+
+		if j.status.CompareAndSwap(s, closed) {
+			return nil
+		}
+	}
+}
+
 func (j *job[T]) Wait() {
 	j.wg.Wait()
 }
@@ -241,7 +277,11 @@ func (j *job[T]) Close() error {
 		return err
 	}
 
-	j.status.Store(closed)
+	// the dispatcher may be starting the job, or another caller closing it, at this very moment
+	if err := j.markClosed(); err != nil {
+		return err
+	}
+
 	j.wg.Done()
 
 	return nil
